@@ -376,3 +376,24 @@ impl<I: Interner> MayInvalidate<I> {
             .any(|(new, current)| self.aggregate_generic_args(new, current))
     }
 }
+
+/// Verification hook H2 (compiled only with `--cfg chalk_verif`): public access to the
+/// answer-aggregation helpers (`merge_into_guidance`, `AntiUnifier::aggregate_generic_args`,
+/// `is_trivial`) and to the `MayInvalidate` check, which are otherwise crate-private.
+#[cfg(chalk_verif)]
+pub mod verif {
+    pub use super::aggregate::verif::{aggregate_generic_args, is_trivial, merge_into_guidance};
+    use super::SubstitutionExt;
+    use chalk_ir::interner::Interner;
+    use chalk_ir::{Canonical, Substitution};
+
+    /// `Substitution::may_invalidate` as used by `make_solution`: could the future answer
+    /// `new` change the guidance `current`?
+    pub fn may_invalidate<I: Interner>(
+        interner: I,
+        new: &Substitution<I>,
+        current: &Canonical<Substitution<I>>,
+    ) -> bool {
+        new.may_invalidate(interner, current)
+    }
+}
